@@ -20,8 +20,9 @@ def run(ctx):
     return ctx.finish(
         rule="'mutate': for every header byte of every member of 7 generated archives (levels 0-3, all methods, links, MacBinary, SFX stub): substitution by 15 values (thorough: all 255), with and without a repaired checksum, the byte deleted, the byte duplicated; truncation at every header offset; every pair of length fields (total, name, compressed, original, first extended size) set to 11 boundary values; "
              "each byte string walked with four API patterns (list; read all in 7-byte pieces; check all; extract all) over three stream kinds; plus every cut of every archive x 3 walks x 5 stream kinds, the extreme-length space and the header perturbation space of C12. Oracle: no sanitizer report, no signal, every call returns. non-trivial = distinct (archive, member, position/field) classes",
-        replay_fn=lambda rep: runner.replay_explorer(rep, quiet=True))
+        replay_fn=lambda rep: (__import__('vlib.cliprop', fromlist=['x']).replay_case(rep) if rep.get('kind') == 'cli' else runner.replay_explorer(rep, quiet=True)))
 
 
 def replay(rep):
-    return runner.replay_explorer(rep)
+    from vlib import cliprop
+    return cliprop.replay_case(rep) if rep.get('kind') == 'cli' else runner.replay_explorer(rep)
